@@ -81,6 +81,14 @@ def build_classes(layout='base-both'):
         d = objects.DBusProperty(name) if pid in lay['anon'] else objects.DBusProperty(name, interface=iface)
         (sub_attrs if pid in lay['sub'] else base_attrs)[attr] = d
     Base = type('Base', (objects.DBusObject,), base_attrs)
+    if layout in ('split', 'anon'):
+        # a constructor that sets a property before it initialises the base class: the value stays
+        first_pid = lay['order'][0]
+
+        def __init__(self, path, _attr=DECL[first_pid][5], _v=concrete(first_pid, 0)):
+            setattr(self, _attr, _v)
+            Base.__init__(self, path)
+        sub_attrs['__init__'] = __init__
     Sub = type('Sub', (Base,), sub_attrs)
     return Sub
 
@@ -147,8 +155,10 @@ class PropsDriver:
             for pid in LAYOUTS[layout]['order']:
                 if pid not in LAYOUTS[layout]['anon'] or obj is self.twin:
                     getattr(obj, DECL[pid][5])
+        early = LAYOUTS[layout]['order'][0] if layout in ('split', 'anon') else None
         for pid in LAYOUTS[layout]['order']:
-            setattr(self.o, DECL[pid][5], concrete(pid, 0))
+            if pid != early:                 # that one was assigned by the constructor, before the base class was initialised
+                setattr(self.o, DECL[pid][5], concrete(pid, 0))
         for pid in LAYOUTS[layout]['order']:
             setattr(self.twin, DECL[pid][5], concrete(pid, 3))
         self.h.exportObject(self.o)
